@@ -19,7 +19,7 @@ RULE = ('configurations: primary (Ed25519 / ECDSA P-256 / RSA-1024) with 1-2 ide
         'enforcement on/off, key forms public / private / private locked / private unlocked / no identity. A covering set over (operation x form x enforcement) per '
         'configuration plus Hypothesis over configurations. Non-trivial: the acting component is a subkey, or nothing qualifies; distinct by (flag assignment, operation, '
         'form, enforcement).')
-RULE += ' A key-flags subpacket in the unhashed area must grant nothing. History worker: one key object through re-certifications, re-bindings, added and removed identities; each sign/certify(user=...) in between is judged against the flags then in force.'
+RULE += ' A key-flags subpacket in the unhashed area must grant nothing. History worker: one key object through re-certifications, re-bindings, added and removed identities; each sign/certify(user=...) in between is judged against the flags then in force. Keys with the primary in the clear and every subkey locked (a locked subkey must never act); two-octet key flags whose second octet grants nothing.'
 ASSUMPTIONS = ['which of several qualifying components is chosen is not asserted', 'any exception counts as a refusal', 'flags that the component\'s algorithm cannot perform '
                '(encrypt on EdDSA, sign on ECDH) are not generated', 'locked forms use a reference-made protected key with a low S2K count (fast to unlock)']
 
